@@ -319,24 +319,80 @@ def run_chain(ms, bottom, meta):
 
 
 # ------------------------------------------------------------------------------------ (c) stack
-def run_stack(cs, meta):
+def sourceless(fn, how, tmpdir, tag):
+    """Makes the source line of fn's frames unretrievable (inspect.getframeinfo(...).code_context is
+    None), the way it is for a function built by exec/compile under a pseudo file name, one whose
+    file has been removed, or one whose file is empty now."""
+    if how == "exec":
+        filename = "<c18-generated-%s>" % tag
+    elif how == "missing-file":
+        filename = os.path.join(tmpdir, "gone_%s.py" % tag)
+    elif how == "empty-file":
+        filename = os.path.join(tmpdir, "empty_%s.py" % tag)
+        open(filename, "w").close()
+    else:
+        raise ValueError(how)
+    fn.__code__ = fn.__code__.replace(co_filename=filename)
+    return fn
+
+
+def run_stack(s0, cs, meta):
+    import shutil
+    import tempfile
+    tmpdir = tempfile.mkdtemp(prefix="c18src")
+    try:
+        return run_stack_in(s0, cs, meta, tmpdir)
+    finally:
+        shutil.rmtree(tmpdir, ignore_errors=True)
+
+
+def run_stack_in(s0, cs, meta, tmpdir):
+    cs = [tuple(x[""]) for x in cs]
     d = len(cs)
+    srcs = [s0] + [s for _, s in cs]
+    hows = meta.get("nosrc_how") or ["exec"]
+    call_site = meta.get("call_site", "after-yield")
     fns = [None] * (d + 1)
     pre = {}
     got = {}
 
+    def task_fn(body, name, src, tag):
+        named(body, name)
+        if src == "SrcNone":
+            sourceless(body, hows[tag % len(hows)], tmpdir, "%s_%d" % (name, tag))
+        elif src != "SrcFile":
+            raise ValueError(src)
+        return asynq_dec()(body)
+
+    def take():
+        try:
+            got["stack"] = debug.format_asynq_stack()
+        except _common.Hang:
+            raise
+        except BaseException as e:
+            got["exc"] = type(e).__name__
+
+    def plain_fn():
+        take()
+
     def mk(i):
         if i == d:
-            def body():
-                yield None
-                try:
-                    got["stack"] = debug.format_asynq_stack()
-                except _common.Hang:
-                    raise
-                except BaseException as e:
-                    got["exc"] = type(e).__name__
-            return asynq_dec()(named(body, "lvl_%d" % i))
-        c = cs[i]
+            if call_site == "before-yield":
+                def body():
+                    take()
+                    yield None
+            elif call_site == "in-plain-fn":
+                def body():
+                    yield None
+                    plain_fn()
+            elif call_site == "after-yield":
+                def body():
+                    yield None
+                    take()
+            else:
+                raise ValueError(call_site)
+            return task_fn(body, "lvl_%d" % i, srcs[i], i)
+        c, ca = ctor(cs[i][0])
         if c == "ByParent":
             def body():
                 yield fns[i + 1].asynq()
@@ -352,19 +408,33 @@ def run_stack(cs, meta):
                 box.append(fns[i + 1].asynq())
                 return
                 yield
-            hfn = asynq_dec()(named(helper, "hlp_%d" % (i + 1)))
+            hfn = task_fn(helper, "hlp_%d" % (i + 1), "SrcFile", i)
 
             def body():
                 box = []
                 yield hfn.asynq(box)
                 yield box[0]
+        elif c == "ByFailedHelper":
+            def helper(box):
+                box.append(fns[i + 1].asynq())
+                raise Boom("helper failed after creating the task")
+                yield
+            hfn = task_fn(helper, "hlp_%d" % (i + 1), ca[0], i)
+
+            def body():
+                box = []
+                try:
+                    yield hfn.asynq(box)
+                except Boom:
+                    pass
+                yield box[0]
         else:
             raise ValueError(c)
-        return asynq_dec()(named(body, "lvl_%d" % i))
+        return task_fn(body, "lvl_%d" % i, srcs[i], i)
 
     for i in range(d + 1):
         fns[i] = mk(i)
-    for i, c in enumerate(cs):
+    for i, (c, _) in enumerate(cs):
         if c == "Pre":
             pre[i + 1] = fns[i + 1].asynq()
     outside_before = debug.format_asynq_stack()
@@ -380,16 +450,26 @@ def run_stack(cs, meta):
     st = got.get("stack")
     if st is None:
         return {"out": {"RStackRaised": [S(str(got.get("exc") or top_exc))]}, "obs": obs}
-    names = []
+    if not isinstance(st, list):
+        return {"out": {"RStackBad": [S(type(st).__name__)]}, "obs": obs}
+    entries = []
     for entry in st:
-        m = re.search(r"\bin (lvl|hlp)_(\d+)\n", entry) or re.search(r"@asynq [\w.<>]*\b(lvl|hlp)_(\d+)\(", entry)
-        if not isinstance(entry, str) or not m:
-            names.append({"TOther": [S(str(entry)[:80])]})
+        if not isinstance(entry, str):
+            entries.append({"EOther": [S(str(entry)[:80])]})
+            continue
+        m = re.match(r'^File "[^\n]*", line \d+, in (lvl|hlp)_(\d+)\n', entry)
+        if m:
+            kind = "EFrame"
         else:
-            names.append({"TL" if m.group(1) == "lvl" else "TH": [int(m.group(2))]})
+            m = re.match(r"^@asynq [\w.<>]*\b(lvl|hlp)_(\d+)\(", entry)
+            kind = "EStr"
+        if not m:
+            entries.append({"EOther": [S(entry[:80])]})
+        else:
+            entries.append({kind: [{"TL" if m.group(1) == "lvl" else "TH": [int(m.group(2))]}]})
     obs["n"] = len(st)
-    obs["fallback_entries"] = sum(1 for e in st if isinstance(e, str) and e.startswith("@asynq"))
-    return {"out": {"RStack": [names]}, "obs": obs}
+    obs["fallback_entries"] = sum(1 for e in entries if "EStr" in e)
+    return {"out": {"RStack": [entries]}, "obs": obs}
 
 
 # ------------------------------------------------------------------------------------ (d) repr
@@ -1088,7 +1168,7 @@ def run_case(c):
     if k == "CChain":
         return run_chain(a[0], a[1], meta)
     if k == "CStack":
-        return run_stack(a[0], meta)
+        return run_stack(a[0], a[1], meta)
     if k == "CRepr":
         return run_repr(a[0], meta)
     raise ValueError(k)
